@@ -6,6 +6,8 @@ structure St where
   files   : List (String × String) := []               -- source tree: path ↦ contents
   defs    : List TAttrs := []
   cacheOn : Bool := false                              -- `[cache] dir` configured
+  inodes  : List (String × Nat) := []                  -- source tree: path ↦ inode (an in-place edit keeps it)
+  nextIno : Nat := 0
   ts      : TSt := TState.empty                        -- plz-out (outputs, results files) and the artifact cache
 
 def findDef (st : St) (l : String) : Option TAttrs := st.defs.find? (·.b.label = l)
@@ -54,10 +56,16 @@ def mkRepo (st : St) (order : List String) : TRepo String TAttrs String String T
           { key := l, attrs := a, srcs := fileSrcsOf a, deps := srcLabels a } },
     tests := fun k => (findDef st k).bind mkTestDef,
     ownName := fun k => match findDef st k with | some a => a.b.out | none => "",
-    cfg := "", cacheOn := st.cacheOn }
+    cfg := "", cacheOn := st.cacheOn,
+    -- a runtime file that is the output of a filegroup over one source file is a hard link of that file
+    linkOf := fun n => (st.defs.find? fun a => a.b.cmd == .fg && TestE2E.pkgOf a.b.label ++ "/" ++ a.b.out == n).bind fun a =>
+      match fileSrcsOf a with
+      | [f] => st.inodes.lookup f
+      | _ => none }
 
 /-- a gentest without `cmd` has no build command, so it never shows up in the action log -/
-def hasCmd (st : St) (l : String) : Bool := match findDef st l with | some a => a.kind != .puretest | none => true
+def hasCmd (st : St) (l : String) : Bool :=
+  match findDef st l with | some a => a.kind != .puretest && a.b.cmd != .fg | none => true
 
 def insSorted (s : String) : List String → List String
   | [] => [s]
@@ -86,14 +94,23 @@ def step (st : St) (line : String) : St × String :=
   | ["reset"] => ({}, "ok")
   | ["file", p, hc] =>
     match strOfHex hc with
-    | some c => ({ st with files := (p, c) :: st.files.filter (·.1 ≠ p) }, "ok")
+    | some c =>      -- written to a temporary file and renamed over the old one: a NEW inode
+      ({ st with files := (p, c) :: st.files.filter (·.1 ≠ p), inodes := (p, st.nextIno) :: st.inodes.filter (·.1 ≠ p),
+                 nextIno := st.nextIno + 1 }, "ok")
     | none => (st, "bad-op")
-  | ["rmfile", p] => ({ st with files := st.files.filter (·.1 ≠ p) }, "ok")
+  | ["filei", p, hc] =>
+    match strOfHex hc with
+    | some c =>      -- truncated and rewritten IN PLACE: the inode (and its xattrs, and its hard links) stays
+      if (st.files.lookup p).isSome then ({ st with files := (p, c) :: st.files.filter (·.1 ≠ p) }, "ok")
+      else ({ st with files := (p, c) :: st.files, inodes := (p, st.nextIno) :: st.inodes, nextIno := st.nextIno + 1 }, "ok")
+    | none => (st, "bad-op")
+  | ["rmfile", p] => ({ st with files := st.files.filter (·.1 ≠ p), inodes := st.inodes.filter (·.1 ≠ p) }, "ok")
   | "target" :: label :: kind :: srcs :: out :: rest =>
     let cmd? : Option Cmd := match kind, rest with
       | "cat", [] => some .cat
       | "catfirst", [] => some .catfirst
       | "mkdir", [] => some .mkdir
+      | "fg", [] => some .fg
       | "const", [h] => (strOfHex h).map .const
       | _, _ => none
     match cmd? with
